@@ -1,7 +1,7 @@
 import Feox.Props.C04
 import Feox.Fmt.Idem
 import Feox.Fmt.Open
-import Feox.Fmt.ClearAfter
+import Feox.Fmt.Twice
 /-!
 # C04 (continued) — recovery's repair writes change nothing a key shows, on the bytes
 
